@@ -423,7 +423,13 @@ pub(crate) fn resolve<'a>(
             (TypeRef::Named(_), None) => Ok(None),
 
             (TypeRef::NonNull(type_ref), Some(value)) => {
-                resolve(schema, ctx, type_ref, Some(value)).await
+                match resolve(schema, ctx, type_ref, Some(value)).await? {
+                    None | Some(Value::Null) => Err(ctx.set_error_path(
+                        Error::new("internal: non-null types require a return value")
+                            .into_server_error(ctx.item.pos),
+                    )),
+                    res => Ok(res),
+                }
             }
             (TypeRef::NonNull(_), None) => Err(ctx.set_error_path(
                 Error::new("internal: non-null types require a return value")
